@@ -39,6 +39,18 @@ impl std::io::Read for Switch {
     }
 }
 
+fn case_c16(s: &[u8], n: &[i64]) -> (String, String, Vec<String>) {
+    let mut a = vec!["c16".to_string()];
+    a.extend(n.iter().map(|x| x.to_string()));
+    a.push(hex(s));
+    ("C16 the scanner terminates".into(), format!("{} on {:?} at offset {} with {} bytes buffered", sc_name(SCANNERS[n[0] as usize]), show(s), n[1], n[2]), a)
+}
+fn case_c13(s: &[u8], n: &[i64]) -> (String, String, Vec<String>) {
+    let mut a = vec!["c13".to_string()];
+    a.extend(n.iter().map(|x| x.to_string()));
+    a.push(hex(s));
+    ("C13 the scanner terminates".into(), format!("{}::<{}> on {:?} at offset {} with {} bytes buffered", FN_NAMES[n[1] as usize], TYPES[n[0] as usize], show(s), n[2], n[3]), a)
+}
 // ---------------------------------------------------------------- C16
 #[derive(Clone, Copy, Debug, PartialEq, Eq)]
 pub enum Scanner {
@@ -111,10 +123,7 @@ fn sc_name(sc: Scanner) -> String {
     }
 }
 fn check_c16(si: usize, s: &[u8], offset: usize, pre: usize, chunk: usize, step: usize) -> Option<(String, String)> {
-    set_case_with(|c| {
-        use std::fmt::Write;
-        let _ = write!(c, "C16 the scanner terminates\x1fscanner {} on {:?} offset {} with {} bytes buffered\x1fc16\x1e{}\x1e{}\x1e{}\x1e{}\x1e{}\x1e{}", si, s, offset, pre, si, offset, pre, chunk, step, hex(s));
-    });
+    set_case_raw(case_c16, s, &[si as i64, offset as i64, pre as i64, chunk as i64, step as i64]);
     let sc = SCANNERS[si];
     // pre == len + 1: everything buffered AND the end of the input already seen by an earlier look-ahead
     let (mut r, m) = reader_with(s, pre.min(s.len()), chunk, step);
@@ -192,10 +201,7 @@ macro_rules! scan_one {
 const FN_NAMES: [&str; 4] = ["ascii_digits", "ascii_digits_multi", "signed_ascii_digits", "signed_ascii_digits_multi"];
 const TYPES: [&str; 12] = ["i8", "u8", "i16", "u16", "i32", "u32", "i64", "u64", "i128", "u128", "isize", "usize"];
 fn check_c13(ty: usize, which: usize, s: &[u8], offset: usize, pre: usize, chunk: usize, step: usize) -> Option<(String, String)> {
-    set_case_with(|c| {
-        use std::fmt::Write;
-        let _ = write!(c, "C13 the scanner terminates\x1f{}::<{}> on {:?} offset {} with {} bytes buffered\x1fc13\x1e{}\x1e{}\x1e{}\x1e{}\x1e{}\x1e{}\x1e{}", FN_NAMES[which], TYPES[ty], s, offset, pre, ty, which, offset, pre, chunk, step, hex(s));
-    });
+    set_case_raw(case_c13, s, &[ty as i64, which as i64, offset as i64, pre as i64, chunk as i64, step as i64]);
     let (mut r, m) = reader_with(s, pre, chunk, step);
     let d0 = m.delivered.get();
     macro_rules! go {
